@@ -4,6 +4,9 @@ Require Import Result F32 Codec C08_Body C08_Read C08_Spec C08_Lemmas.
 Import ListNotations.
 Local Open Scope nat_scope.
 
+Section Cfg.
+Variables (mm : mmkind) (eo : bool).
+
 Lemma stack3_fst {X} (g : N -> X) d (pts : t3 point) : stack3 g d (map3 fst pts) = rows g d pts.
 Proof. unfold stack3, rows. apply map3_map3. Qed.
 Lemma stack2_fst {X} (g : N -> X) d (pts : t2 point) :
@@ -14,7 +17,7 @@ Proof. unfold rows. rewrite zip4_map3. apply map3_ext. intros x. apply zipw_same
 
 (* a bare tensor handed to any constructor gives the representation of the same content *)
 Lemma plain_rep b k : kD k <> 0 ->
-  ctor cfg_repaired b (k_fps k) (Plain (kshape k) (map3 snd (k_pts k))) (kcshape k) (map3 fst (k_pts k)) = Ok (rep b k).
+  ctor (cfg_repaired mm eo) b (k_fps k) (Plain (kshape k) (map3 snd (k_pts k))) (kcshape k) (map3 fst (k_pts k)) = Ok (rep b k).
 Proof. intros HD. apply Nat.eqb_neq in HD. destruct b; unfold ctor, np_init, mt_init, rep, kshape, kcshape;
   cbn [dshape dval last_dim last app cfg_repaired torch_rule tf_rule tf_stack valid_by valid_by_tf]; rewrite HD.
   - rewrite shape_eqb_refl. cbn [negb]. now rewrite stack3_fst.
@@ -22,7 +25,7 @@ Proof. intros HD. apply Nat.eqb_neq in HD. destruct b; unfold ctor, np_init, mt_
   - now rewrite stack3_fst. Qed.
 (* a body that already is a representation is kept by every constructor (NumPy re-derives the same mask) *)
 Lemma masked_rep b k : kD k <> 0 ->
-  ctor cfg_repaired b (k_fps k) (g_data (rep b k)) (kcshape k) (map3 fst (k_pts k)) = Ok (rep b k).
+  ctor (cfg_repaired mm eo) b (k_fps k) (g_data (rep b k)) (kcshape k) (map3 fst (k_pts k)) = Ok (rep b k).
 Proof. intros HD. apply Nat.eqb_neq in HD. destruct b; unfold ctor, np_init, mt_init, rep, kshape, kcshape;
   cbn [g_data dshape dval last_dim last app stored]; try reflexivity.
   rewrite HD, shape_eqb_refl. cbn [negb]. now rewrite stack3_fst, or_rows. Qed.
@@ -42,7 +45,7 @@ Proof. intros H. unfold observe, gobserve, rep, obs_core. cbn [g_fps g_data g_cs
 
 (* one frame *)
 Lemma masked_frep b q : qD q <> 0 ->
-  ctor3 cfg_repaired b (q_fps q) (g_data (frep b q)) [qP q; qT q] (map2n fst (q_pts q)) = Ok (frep b q).
+  ctor3 (cfg_repaired mm eo) b (q_fps q) (g_data (frep b q)) [qP q; qT q] (map2n fst (q_pts q)) = Ok (frep b q).
 Proof. intros HD. apply Nat.eqb_neq in HD. destruct b; unfold ctor3, np_init3, mt_init3, frep;
   cbn [g_data dshape dval last_dim last app stored cfg_repaired np_axis]; try reflexivity.
   rewrite HD, shape_eqb_refl. cbn [negb]. rewrite stack2_fst, zip3_map2. do 3 f_equal.
@@ -62,19 +65,20 @@ Proof. intros H. unfold observe3, gobserve, frep, fobs_core. cbn [g_fps g_data g
 
 (* ---- reading: every backend holds the representation of the same content ---- *)
 Lemma body_of_raw_rep b r :
-  body_of_raw cfg_repaired b r = if Nat.eqb (r_D r) 0 then Err Value else Ok (rep b (core_of_raw r)).
+  body_of_raw (cfg_repaired mm eo) b r = if Nat.eqb (r_D r) 0 then Err Value else Ok (rep b (core_of_raw r)).
 Proof. destruct (Nat.eqb_spec (r_D r) 0) as [E|NE].
   - unfold body_of_raw. destruct b; unfold ctor, np_init, mt_init; cbn [dshape last_dim last cfg_repaired tf_stack];
       rewrite E; reflexivity.
   - apply (plain_rep b (core_of_raw r)). exact NE. Qed.
-Lemma read_body_rep b buffer a : read_body cfg_repaired b buffer a = rmap (rep b) (read_core buffer a).
+Lemma read_body_rep b buffer a : read_body (cfg_repaired mm eo) b buffer a = rmap (rep b) (read_core buffer a).
 Proof. unfold read_body, read_core. destruct (read_raw_file buffer a) as [r|e]; cbn [rbind rmap]; [|reflexivity].
   rewrite body_of_raw_rep. now destruct (Nat.eqb (r_D r) 0). Qed.
 Lemma read_core_D buffer a k : read_core buffer a = Ok k -> kD k <> 0.
 Proof. unfold read_core. destruct (read_raw_file buffer a) as [r|e]; cbn [rbind]; [|discriminate].
   destruct (Nat.eqb_spec (r_D r) 0) as [E|NE]; [discriminate|]. intros [= <-]. exact NE. Qed.
-Lemma np_to_rep b k : kD k <> 0 -> np_to cfg_repaired b (rep Np k) = Ok (rep b k).
+Lemma np_to_rep b k : kD k <> 0 -> np_to (cfg_repaired mm eo) b (rep Np k) = Ok (rep b k).
 Proof. intros HD. unfold np_to. cbn [rep g_fps g_data g_cs g_conf dshape dval]. now apply plain_rep. Qed.
-Lemma read_convert_rep b buffer a : read_convert cfg_repaired b buffer a = rmap (rep b) (read_core buffer a).
+Lemma read_convert_rep b buffer a : read_convert (cfg_repaired mm eo) b buffer a = rmap (rep b) (read_core buffer a).
 Proof. unfold read_convert. rewrite read_body_rep. destruct (read_core buffer a) as [k|e] eqn:E; cbn [rmap rbind]; [|reflexivity].
   apply np_to_rep. now apply (read_core_D buffer a). Qed.
+End Cfg.
